@@ -14,9 +14,13 @@
                         other than template (key 1) and continuity (key 2)
      attr_get k a       the values of optional attribute k
      is_report it       it declares template identifier 1500
-     holds_3d c         the document class can hold 3-D coordinates *)
+     holds_3d c         the document class can hold 3-D coordinates
+     tup e              (study, series, uid, class) of a supplied record
+     verif_missing a    is_verified without observer name or without organization
+     built_doc k a r cu the document the constructor builds from root r and evidence cu
+     ko_ref_item r      the IMAGE / COMPOSITE item a key object selection holds for object r *)
 From Coq Require Import String ZArith List Bool Permutation.
-From HD Require Import Base.Val C15_Model C15_Proofs C15_Proofs_Doc C15_Proofs_Seg.
+From HD Require Import Base.Val C15_Model C15_Proofs C15_Proofs_Doc C15_Proofs_Seg C15_Proofs_Ext.
 Import ListNotations.
 Open Scope Z_scope.
 
@@ -401,3 +405,187 @@ Example C15_example_seg :
   rs_from_segmentation ex_seg 1 (Some [1; 3]) = Err "ValueError".
 Proof. repeat split; vm_compute; reflexivity. Qed.
 Print Assumptions C15_example_seg.
+
+(* ==== extension: predecessors, total refusal verdicts, end to end, KO parsing ==================== *)
+(* previous versions: every one listed, WITH multiplicity (no de-duplication), under the study /
+   series / class it was given with; studies once, series once (under their study) *)
+Theorem C15_predecessors : forall pv,
+  Permutation (flatten (collect_predecessors pv)) (map tup pv) /\
+  NoDup (map fst (collect_predecessors pv)) /\
+  NoDup (flatten_series (collect_predecessors pv)) /\
+  (forall st sers, In (st, sers) (collect_predecessors pv) -> NoDup (map fst sers)).
+Proof. exact predecessors_spec. Qed.
+Print Assumptions C15_predecessors.
+
+Theorem C15_document_predecessors : forall c a d, sr_init c a = Ok d ->
+  d_pred d = match a_previous a with None => None | Some pv => Some (collect_predecessors pv) end.
+Proof. exact doc_predecessors. Qed.
+Print Assumptions C15_document_predecessors.
+
+(* collect_evidence: TOTAL verdict, no premise on the tree - which error class, and exactly when *)
+Theorem C15_collect_refusal_total : forall has_cs ev root k,
+  collect_evidence has_cs ev root = Err k <->
+  (k = "AttributeError"%string /\
+   (has_cs = false \/
+    exists it, In it (descendants root) /\ (i_vt it = IMAGE \/ i_vt it = COMPOSITE) /\ i_ref it = None)) \/
+  (k = "ValueError"%string /\ has_cs = true /\ refs_wf root /\
+   ~ (forall u, referenced root u -> In u (map e_uid ev))).
+Proof. exact collect_err_iff. Qed.
+Print Assumptions C15_collect_refusal_total.
+
+(* the three SR constructors: TOTAL refusal verdict in guard order (an earlier guard decides the
+   error class): no evidence; transfer syntax; verification details; content sequence without
+   exactly one item; root with a relationship type; root not a container; evidence collection
+   (see C15_collect_refusal_total); 3-D coordinates at any depth in a class that cannot hold them *)
+Theorem C15_document_refusal_total : forall c a k,
+  sr_init c a = Err k <->
+  ((a_evidence a = [] /\ k = "ValueError"%string) \/
+   (a_evidence a <> [] /\
+    ((a_ts_ok a = false /\ k = "ValueError"%string) \/
+     (a_ts_ok a = true /\
+      ((verif_missing a = true /\ k = "ValueError"%string) \/
+       (verif_missing a = false /\
+        ((single_root (a_content a) = None /\ k = "ValueError"%string) \/
+         exists root, single_root (a_content a) = Some root /\
+           ((i_rel root <> 0 /\ k = "AttributeError"%string) \/
+            (i_rel root = 0 /\
+             ((i_vt root <> CONTAINER /\ k = "TypeError"%string) \/
+              (i_vt root = CONTAINER /\
+               collect_evidence (a_root_cs a) (a_evidence a) root = Err k))))))))))) \/
+  (exists root cu,
+     (a_evidence a <> [] /\ a_ts_ok a = true /\
+      (a_verified a = true -> is_some (a_observer a) = true /\ is_some (a_org a) = true) /\
+      single_root (a_content a) = Some root /\ i_rel root = 0 /\ i_vt root = CONTAINER /\
+      collect_evidence (a_root_cs a) (a_evidence a) root = Ok cu) /\
+     holds_3d c = false /\
+     (exists it, In it (descendants root) /\ i_vt it = SCOORD3D) /\ k = "ValueError"%string).
+Proof. exact sr_refusal_total. Qed.
+Print Assumptions C15_document_refusal_total.
+
+Theorem C15_document_refusal_classes : forall c a k, sr_init c a = Err k ->
+  k = "ValueError"%string \/ k = "AttributeError"%string \/ k = "TypeError"%string.
+Proof. exact sr_refusal_classes. Qed.
+Print Assumptions C15_document_refusal_classes.
+
+(* END TO END, the property sentence: an accepted document contains the tree given; written and
+   parsed it has the same class and exposes every descendant (all optional attributes) and the
+   root's name and type - the whole document when the root is a plain container; the evidence the
+   PARSED document reports is, in terms of the arguments: current = referenced and supplied, all =
+   current + (iff record_evidence) the other supplied instances, each instance once, each under the
+   study / series / class of its first supplied record; nothing referenced lacks evidence; no 3-D
+   coordinates at any depth unless the class holds them; verification details recorded *)
+Theorem C15_sr_document : forall c a d, sr_init c a = Ok d ->
+  exists root d',
+    single_root (a_content a) = Some root /\ d_content d = root /\
+    srread d = Ok (c, d') /\
+    descendants (d_content d') = descendants root /\
+    i_tag (d_content d') = i_tag root /\ i_vt (d_content d') = i_vt root /\
+    (root_typed root -> d' = d) /\
+    (forall st se u k, In (st, se, u, k) (get_evidence d' true) <->
+       referenced root u /\ first_evd (a_evidence a) u = Some (Evd u k st se)) /\
+    (forall st se u k, In (st, se, u, k) (get_evidence d' false) <->
+       (referenced root u \/ a_record a = true) /\ first_evd (a_evidence a) u = Some (Evd u k st se)) /\
+    NoDup (map uid4 (get_evidence d' false)) /\
+    (forall u, referenced root u -> In u (map e_uid (a_evidence a))) /\
+    (holds_3d c = false -> forall it, In it (descendants root) -> i_vt it <> SCOORD3D) /\
+    (a_verified a = true ->
+       exists n o, a_observer a = Some n /\ a_org a = Some o /\ d_observer d' = Some (n, o)).
+Proof. exact sr_document_end_to_end. Qed.
+Print Assumptions C15_sr_document.
+
+(* non-vacuity: sequence content, template 1500 root, depth-3 tree, repeated reference, evidence
+   over two studies with a duplicate and an unreferenced instance, verified, a previous version
+   given twice *)
+Example C15_sr_document_example :
+  exists d, sr_init Enhanced e2e_args = Ok d /\ srread d = Ok (Enhanced, d) /\
+    is_report (d_content d) = true /\
+    get_evidence d true = [(1, 11, 1, 0); (2, 21, 2, 2)] /\
+    get_evidence d false = [(1, 11, 1, 0); (2, 21, 2, 2); (1, 11, 3, 0)] /\
+    d_pred d = Some [(1, [(5, [(20, 2); (20, 2)])])] /\ d_observer d = Some (7, 8).
+Proof. exact e2e_example. Qed.
+Print Assumptions C15_sr_document_example.
+
+(* ---- key object documents parsed back (KeyObjectSelectionDocument.from_dataset) ------------------- *)
+Theorem C15_key_object_parse : forall has_cs d d',
+  ko_from_dataset has_cs d = Ok d' <->
+  d_cls d = ko_code /\ has_cs = true /\ i_vt (d_content d) = CONTAINER /\
+  (exists tl, attr_get k_template (i_attrs (d_content d)) = Some (2010 :: tl)) /\
+  d_current d <> [] /\ d' = set_content d (reroot (d_content d)).
+Proof. exact ko_from_dataset_iff. Qed.
+Print Assumptions C15_key_object_parse.
+
+(* build from a KeyObjectSelection, write, parse: the document that was written (content tree,
+   evidence, hence every resolve_reference answer) *)
+Theorem C15_key_object_roundtrip : forall ev ts title descr refs root d,
+  ko_content title descr refs = Ok root -> ko_init ev ts root = Ok d ->
+  ko_from_dataset true d = Ok d.
+Proof. exact ko_roundtrip. Qed.
+Print Assumptions C15_key_object_roundtrip.
+
+(* get_references lists the selected objects exactly as given (order and repeats kept, the
+   description item never), filtered by value type / referenced SOP class; other value types refused *)
+Theorem C15_key_object_references : forall title descr refs root,
+  ko_content title descr refs = Ok root ->
+  ko_get_references None None root = Ok (map ko_ref_item refs) /\
+  (forall cf, ko_get_references None cf root = Ok (filter (cls_ok cf) (map ko_ref_item refs))) /\
+  (forall t cf, ref_vt t = true ->
+     ko_get_references (Some t) cf root =
+     Ok (filter (fun it => vt_eqb (i_vt it) t && cls_ok cf it) (map ko_ref_item refs))) /\
+  (forall t cf, ref_vt t = false -> ko_get_references (Some t) cf root = Err "ValueError").
+Proof. exact ko_references_listed. Qed.
+Print Assumptions C15_key_object_references.
+
+Example C15_key_object_example :
+  exists root d, ko_content 113000 (Some 2) [(1, 0, true); (2, 1, false); (1, 0, true)] = Ok root /\
+    ko_init ko_ex_ev true root = Ok d /\ ko_from_dataset true d = Ok d /\
+    d_current d = [(1, [(11, [(1, 0)]); (12, [(2, 1)])])] /\
+    resolve_reference d 2 = Ok (1, 12, 2) /\ resolve_reference d 3 = Err "ValueError" /\
+    ko_get_references (Some IMAGE) None root = Ok [ko_ref_item (1, 0, true); ko_ref_item (1, 0, true)] /\
+    ko_get_references None (Some 1) root = Ok [ko_ref_item (2, 1, false)] /\
+    ko_from_dataset true (snd (ko_tamper 2 d)) = Err "ValueError" /\
+    ko_from_dataset true (snd (ko_tamper 3 d)) = Err "AttributeError".
+Proof. exact ko_example. Qed.
+Print Assumptions C15_key_object_example.
+
+(* get_evidence_series(all): the exact list - every series of the current evidence, then the series
+   of the other evidence that are not listed already (replaces membership + NoDup of C15_readback_series) *)
+Theorem C15_readback_series_exact : forall c a d, sr_init c a = Ok d ->
+  get_evidence_series d false =
+  flatten_series (d_current d) ++
+  filter (fun p => negb (existsb (pair_eqb p) (flatten_series (d_current d)))) (flatten_series (d_other d)).
+Proof. exact readback_series_exact. Qed.
+Print Assumptions C15_readback_series_exact.
+
+(* key object documents: exact acceptance condition and the document built *)
+Theorem C15_key_object_accepted_iff : forall ev ts root d,
+  ko_init ev ts root = Ok d <->
+  ev <> [] /\ ts = true /\
+  exists st sers oth, collect_evidence true ev root = Ok ([(st, sers)], oth) /\
+    d = Doc ko_code root [(st, sers)] [] None false false false None.
+Proof. exact ko_init_iff. Qed.
+Print Assumptions C15_key_object_accepted_iff.
+
+(* ... all referenced instances were supplied under ONE study; two under different studies => refused *)
+Theorem C15_key_object_single_study : forall ev ts root d, ko_init ev ts root = Ok d ->
+  exists st, forall u, referenced root u ->
+    exists e, first_evd ev u = Some e /\ e_study e = st.
+Proof. exact ko_single_study. Qed.
+Print Assumptions C15_key_object_single_study.
+
+Theorem C15_key_object_two_studies_refused : forall ev ts root u1 u2 e1 e2,
+  referenced root u1 -> referenced root u2 ->
+  first_evd ev u1 = Some e1 -> first_evd ev u2 = Some e2 -> e_study e1 <> e_study e2 ->
+  forall d, ko_init ev ts root <> Ok d.
+Proof. exact ko_two_studies_refused. Qed.
+Print Assumptions C15_key_object_two_studies_refused.
+
+(* parsing carries over everything but the rebuilt root item: evidence sequences, predecessors,
+   flags, verifying observer - hence all four evidence read-backs of the parsed document *)
+Theorem C15_parsed_keeps_evidence : forall c a d d', sr_init c a = Ok d -> srread d = Ok (c, d') ->
+  d_cls d' = d_cls d /\ d_current d' = d_current d /\ d_other d' = d_other d /\ d_pred d' = d_pred d /\
+  d_complete d' = d_complete d /\ d_verified d' = d_verified d /\ d_final d' = d_final d /\
+  d_observer d' = d_observer d /\
+  (forall b, get_evidence d' b = get_evidence d b) /\
+  (forall b, get_evidence_series d' b = get_evidence_series d b).
+Proof. exact parsed_keeps_evidence. Qed.
+Print Assumptions C15_parsed_keeps_evidence.
